@@ -65,6 +65,7 @@ class LaneOut:
         self.build = 'ok'       # ok | emitted-fail | driver-fail | not-run
         self.log = ''
         self.enc = {}           # i -> hex | ('ERR', text)
+        self.appended = {}      # i -> hex of the readable bytes after: encode m0, encode m0, decode one, encode mi | ('ERR'|'SKIP', text)
         self.toggled = {}       # i -> {'ENCU': hex with the checksum registry emptied, 'ENCG': hex after it was restored}
         self.dec = {}           # id -> (rem, dumpstr) | ('ERR', text)
         self.reenc = {}         # id -> hex | ('ERR', text)
@@ -79,7 +80,7 @@ class LaneOut:
 def write_cases(path, enc_ids, dec_cases):
     with open(path, 'w') as f:
         for i in enc_ids:
-            if isinstance(i, tuple):    # ('U', i): encode message i with the checksum registry emptied, then again with it restored
+            if isinstance(i, tuple):    # ('U', i): encode with the checksum registry emptied, then restored; ('A', i): append to a buffer in use
                 f.write('%s %d\n' % i)
             else:
                 f.write('E %d\n' % i)
@@ -105,6 +106,9 @@ def parse_driver_output(text, out):
             out.enc[int(parts[1])] = parts[2] if len(parts) > 2 else ''
         elif tag == 'ENCERR':
             out.enc[int(parts[1])] = ('ERR', parts[2] if len(parts) > 2 else '')
+        elif tag == 'ENCA':
+            v = parts[2] if len(parts) > 2 else ''
+            out.appended[int(parts[1])] = ('SKIP', v[5:]) if v.startswith('SKIP ') else ('ERR', v[4:]) if v.startswith('ERR ') else v
         elif tag in ('ENCU', 'ENCG'):
             v = parts[2] if len(parts) > 2 else ''
             out.toggled.setdefault(int(parts[1]), {})[tag] = ('ERR', v[4:]) if v.startswith('ERR ') else v
